@@ -21,10 +21,10 @@ fn main() {
     ev.max_samples = 12;
     for e in &elems {
         match e.as_str() {
-            "f64" => x19a::run(&mut ev, stratum),
-            "f32" => x19b::run(&mut ev, stratum),
-            "i32" => x19c::run(&mut ev, stratum),
-            "i64" => x19d::run(&mut ev, stratum),
+            "f64" => x19a::run(&mut ev, stratum, args.shard, args.shards),
+            "f32" => x19b::run(&mut ev, stratum, args.shard, args.shards),
+            "i32" => x19c::run(&mut ev, stratum, args.shard, args.shards),
+            "i64" => x19d::run(&mut ev, stratum, args.shard, args.shards),
             other => panic!("unknown element type {other}"),
         }
     }
@@ -32,7 +32,7 @@ fn main() {
     for name in insts.iter().step_by(insts.len() / 10 + 1) {
         ev.samples.push(J::obj().set("instantiation", name.as_str()).set("query_types", "Ix0, Ix1 (fast path), Ix2, Ix3, IxDyn(rank 1), per-element interp"));
     }
-    let full = stratum == 0 && elems.len() == 4;
+    let full = stratum == 0 && elems.len() == 4 && args.shards == 1;
     ev.add("instantiations", insts.len() as u64);
     ev.add("query_type_instantiations", insts.len() as u64 * 5);
     ev.finish(
